@@ -8,7 +8,7 @@ unsigned g_delta_win;
 void *xmalloc(size_t n) { return malloc(n); }
 
 static struct retriever_internal_state RS;
-static uint32_t TT[64];
+static uint32_t TT[MAX_BLOCK_SIZE];
 
 /* O5.4  One delta window of the real retrieve() from an arbitrary table-reading state,
    entered through the coroutine resume point S_DELTA_TAG.  len0 ranges over every
@@ -23,9 +23,9 @@ void h_delta_step(void)
   V_IN(unsigned, live);
   V_IN(uint64_t, buff);
   V_IN(uint32_t, word);
-  V_IN(unsigned, j);
-  V_IN(unsigned, as);
-  V_IN(unsigned, t);
+  /* position in the table section: concrete per instance (symbolic indices into the 60 KB
+     retriever state make the SAT encoding explode; the window logic does not depend on them) */
+  unsigned j = DELTA_J, as = DELTA_AS, t = DELTA_T;
   V_ASSUME(len0 <= 31 && live < 32 && (buff << live) == 0 && (live != 0 || buff == 0));
   V_ASSUME(as >= MIN_ALPHA_SIZE && as <= MAX_ALPHA_SIZE && j < as && t < MAX_TREES);
   mem[0] = word;
